@@ -468,8 +468,26 @@ class Emit:
             if not ln.strip(): continue
             if cur is None:
                 cur = ['%d' % nparam if all(nm is None or re.fullmatch(r'%\d+', nm) for _, nm, _ in f.params) else 'entry', []]; blocks.append(cur)
-            if (ln.startswith('    ') or ln.strip() == ']') and cur[1]: cur[1][-1] += ' ' + ln.strip()
+            if (ln.startswith('    ') or ln.strip().startswith(']')) and cur[1]: cur[1][-1] += ' ' + ln.strip()
             else: cur[1].append(ln.strip())
+        # lay the blocks out in reverse post-order of the CFG: then only genuine loop back-edges are backward gotos
+        # (CBMC treats EVERY backward goto as a loop to unwind; LLVM's own block order has many backward non-loop jumps)
+        if len(blocks) > 2:
+            names = [b[0] for b in blocks]; idx = {n: i for i, n in enumerate(names)}
+            succ = {}
+            for bname, ins in blocks:
+                term = ins[-1] if ins else ''
+                tg = [x[1:] if x.startswith('%') else x for x in re.findall(r'label (%"(?:[^"\\]|\\.)*"|%[-a-zA-Z$._0-9]+)', term)]
+                succ[bname] = [t for t in tg if t in idx]
+            seen = set(); post = []
+            st = [(names[0], iter(succ[names[0]]))]; seen.add(names[0])
+            while st:
+                n, it = st[-1]
+                for m in it:
+                    if m not in seen: seen.add(m); st.append((m, iter(succ[m]))); break
+                else: post.append(n); st.pop()
+            order = post[::-1] + [n for n in names if n not in seen]
+            blocks = [blocks[idx[n]] for n in order]
         # entry label may be unnamed numeric: compute as count of unnamed values before
         lab = lambda l: 'L_' + cid('%' + l)
         # first pass: collect phis
@@ -706,10 +724,10 @@ class Emit:
 import os
 BYTELOOPS = os.environ.get('VLL_BYTELOOPS') == '1'   # variable-length memset/memcpy as bounded byte loops instead of CBMC's built-ins
 LIBCGLOBALS = {'__libc_single_threaded', 'stdout', 'stderr', 'stdin', 'environ', 'timezone', 'daylight'}   # real libc objects: declared extern, no prefix
-RTGLOBALS = {'vra_loc_overflow_prunes', 'vll_fatal_ok', 'vll_fatal_seen', 'vll_exc', 'vll_exc_obj', 'vll_exc_type'}
+RTGLOBALS = {'vll_alloc_forbidden', 'vra_loc_overflow_prunes', 'vll_fatal_ok', 'vll_fatal_seen', 'vll_exc', 'vll_exc_obj', 'vll_exc_type'}
 BUILTIN = {'bcmp', '__CPROVER_assume', '__CPROVER_assert', 'malloc', 'free', 'calloc', 'realloc', 'memcpy', 'memset', 'memmove', 'strlen', 'strnlen', 'memchr', 'memcmp', 'strcmp', 'strncmp', 'strcpy', 'strncpy', 'strchr', 'strrchr', 'strstr', 'exit', 'abs', 'labs',
            'vnd_u64', 'vnd_range', 'vassume', 'vassert_at', 'vwitness_at', 'vobs', 'vll_abort', 'vll_assert_fail', 'vll_printf', 'vll_fprintf', 'vll_puts',
-           'vll_cxa_atexit', 'vll_guard_acquire', 'vll_guard_release', 'vll_pure_virtual',
+           'vll_forbidden', 'vll_rdtsc', 'vll_cxa_atexit', 'vll_guard_acquire', 'vll_guard_release', 'vll_pure_virtual',
            'vra_load', 'vra_store', 'vra_rmw', 'vra_cas', 'vra_fence', 'vra_set_thread', 'vra_thread', 'vra_na_read', 'vra_na_write', 'vra_forget', 'vra_register', 'vra_stale_reads', 'vll_qpool_set'}
 
 if __name__ == '__main__':
